@@ -336,6 +336,7 @@ def run(tier, seed, replay):
     if not shutil.which("strace"):
         rep.inconc("strace not available: syscall oracle skipped (snapshot oracle still applies)")
     scratch = vcommon.scratch_dir("c33")
+    t0 = os.times()
     try:
         thorough = tier == "thorough"
         table_p = os.path.join(scratch, "table.json")
@@ -449,6 +450,8 @@ def run(tier, seed, replay):
         rep.extra["per_backend"] = per_backend
         rep.assumptions += ["strace -f -e trace=%file sees every path-taking syscall of the CLI process; only successful calls count as writes",
                             "the model classifies a differing file exactly like the CLI (UTF-8, no control characters, equal str::lines())"]
+        t1 = os.times()
+        rep.extra["children_cpu_s"] = round((t1.children_user - t0.children_user) + (t1.children_system - t0.children_system), 1)
         return rep
     finally:
         vcommon.rm_scratch(scratch)
